@@ -1,7 +1,7 @@
 (* C19: OpenQASM 2 programs stay OpenQASM 2 and convert faithfully to OpenQASM 3.
    Statements only; proofs in Text/Qasm2.v. *)
 From Coq Require Import ZArith List Bool String.
-From Verif Require Import BGate PyVal Ast State Unroll Qasm2 FixProofs.
+From Verif Require Import BGate PyVal Ast State Unroll Qasm2 FixProofs LoopProofs BroadcastProofs GateDefProofs.
 From Verif Require Import ModuleSpec ModuleProofs.
 Import ListNotations.
 
@@ -75,3 +75,20 @@ Proof.
   split; [exists o1; exact E1|exists o2; split; assumption].
 Qed.
 Print Assumptions C19_wellformed_flat_version_2_program_is_a_fixpoint.
+
+(* Version-2 programs inside the whole-program judgement (Props/C01.v): an OpenQASM 2 program of whitelisted statements that the
+   judgement `gjudge` admits (gate definitions and calls, library gates, whole-register operands, conditionals, ...) is unrolled,
+   as a version-2 module, to exactly the expansion the judgement computes, and validate() accepts it with the expansion's counts *)
+Theorem C19_version_2_programs_of_the_judgement fuel p q evs :
+  forallb qasm2_allowed p = true -> gjudge p = Some (q, evs) -> (ldepth p + 1 < fuel)%nat -> (gate_nesting < fuel)%nat ->
+  (exists o, run_visit true false [] fuel p = Ok o /\ o_stmts o = q /\ wf_flat env0 q = true /\
+             num_qubits (o_state o) = total_qubits q /\ num_clbits (o_state o) = total_clbits q) /\
+  (exists o, run_visit true true [] fuel p = Ok o /\
+             num_qubits (o_state o) = total_qubits q /\ num_clbits (o_state o) = total_clbits q).
+Proof.
+  intros Hw Hx Hf HN. rewrite !(whitelisted_same_visit _ [] fuel p Hw). split.
+  - destruct (source_programs_unroll_to_their_expansion fuel p q evs Hx Hf HN) as (o & E & Ho & W & A & B & _).
+    exists o. repeat split; assumption.
+  - exact (source_programs_are_accepted_by_validate fuel p q evs Hx Hf HN).
+Qed.
+Print Assumptions C19_version_2_programs_of_the_judgement.
